@@ -813,7 +813,227 @@ def run_testobj_project(_job):
     return out
 
 
+# ---- histories of one build directory / sibling targets: "what the build definition specifies" is the CURRENT definition of ----
+# ---- THIS target -------------------------------------------------------------------------------------------------------
+# A definition of one command = (environment definition, argument list).  Family `reconf`: for every ordered pair (A, B) of
+# distinct definitions the build directory is configured with A, the build file is edited to B and the directory reconfigured
+# (`meson setup --reconfigure`, what ninja does itself after an edit); the command then has to receive what B says (thorough
+# tier: then back to A).  Family `siblings`: for every unordered pair {A, B} of environment definitions two targets of ONE
+# configuration run the very same command line, one with A and one with B; each has to receive its own environment.
+# The variables are set where the command runs (HV=outerV, HW=outerW), so set / append / prepend / unset / separator all differ
+# in what the process must see (Reference manual, environment object: append/prepend join with the existing value, separator
+# ':' unless given; unset removes the variable; a variable the definition does not mention is inherited).
+HIST_OUTER = {'HV': 'outerV', 'HW': 'outerW'}
+HIST_ENVDEFS = [
+    ('none', []),
+    ('set', [('set', 'HV', 'one', None)]),
+    ('append', [('append', 'HV', 'one', None)]),
+    ('prepend', [('prepend', 'HV', 'one', None)]),
+    ('append-sep', [('append', 'HV', 'one', ';')]),
+    ('unset', [('unset', 'HV', None, None)]),
+    ('set-one-odd', [('set', 'HV', 'one;HW,two', None)]),
+    ('set-two', [('set', 'HV', 'one', None), ('set', 'HW', 'two', None)]),
+    # thorough tier only
+    ('prepend-sep', [('prepend', 'HV', 'one', ';')]),
+    ('append-two', [('append', 'HV', 'one', None), ('prepend', 'HW', 'two', None)]),
+    ('set-other', [('set', 'HV', 'two', None)]),
+]
+HIST_ARGDEFS = [['a b', 'c'], ['a', 'b\nc'], ['a b\nc']]     # without / with a newline (the latter is always serialised)
+HIST_POSITIONS = ('custom_target', 'run_target')
+
+
+def hist_defs(ne, na):
+    return [(e, a) for e in range(ne) for a in range(na)]
+
+
+def hist_env_expected(ei):
+    """the model: {variable: bytes or None (not in the environment)} after the operations of the definition, from the docs"""
+    cur = dict(HIST_OUTER)
+    for method, var, val, sep in HIST_ENVDEFS[ei][1]:
+        s_ = ':' if sep is None else sep
+        if method == 'set':
+            cur[var] = val
+        elif method == 'unset':
+            cur[var] = None
+        elif method == 'append':
+            cur[var] = val if cur[var] is None else cur[var] + s_ + val
+        else:
+            cur[var] = val if cur[var] is None else val + s_ + cur[var]
+    return {k: (None if v is None else b(v)) for k, v in cur.items()}
+
+
+def hist_decl(L, name, pos, d, dump):
+    """append the declaration of target `name` with definition d = (envdef index, argdef index) to the build file lines"""
+    ei, ai = d
+    kw = ''
+    if HIST_ENVDEFS[ei][1]:
+        L.append('e_%s = environment()' % name)
+        for method, var, val, sep in HIST_ENVDEFS[ei][1]:
+            if method == 'unset':
+                L.append("e_%s.unset('%s')" % (name, var))
+            else:
+                L.append("e_%s.%s('%s', %s%s)" % (name, method, var, lit(val), '' if sep is None else ", separator: '%s'" % sep))
+        kw = ', env: e_%s' % name
+    cmd = "[dump, '--dump=%s', '--env=HV', '--env=HW', %s]" % (dump, ', '.join(lit(x) for x in HIST_ARGDEFS[ai]))
+    if pos == 'custom_target':
+        L.append("custom_target('%s', output: '%s.out', command: %s%s)" % (name, name, cmd, kw))
+    else:
+        L.append("run_target('%s', command: %s%s)" % (name, cmd, kw))
+
+
+def hist_observe(bdir, env, names):
+    """run the statements of the named targets -> {name: (argv, {HV, HW}) or None}; wrapped = how many go through meson --internal exe"""
+    mf = rn.parse_file(os.path.join(bdir, 'build.ninja'))
+    byname = {}
+    for e in mf.edges:
+        for o in e.outs:
+            byname[o.split('/')[-1]] = e
+    res = {}
+    pickled = 0
+    for name, dump in names:
+        e = byname.get('meson-internal__' + name) or byname.get(name + '.out')
+        if e is None:
+            res[name] = None
+            continue
+        if '--unpickle' in e.command():
+            pickled += 1
+        if os.path.exists(dump):
+            os.unlink(dump)
+        rn.run_edge(e, bdir, env=dict(env))
+        try:
+            args, envv = parse_dump(dump)
+            res[name] = ([x for x in args if not x.startswith((b'--dump=', b'--env='))], {k: envv.get(k) for k in HIST_OUTER})
+        except Exception:
+            res[name] = None
+    return res, pickled
+
+
+def hist_describe(d):
+    return '%s %r' % (HIST_ENVDEFS[d[0]][0], HIST_ARGDEFS[d[1]])
+
+
+def run_history(job):
+    """job = (idx, 'RC', index of A in defs, [indices of B], ne, na, steps)"""
+    from verif import mesonproc as mp
+    _, _, ia, ibs, ne, na, steps = job
+    defs = hist_defs(ne, na)
+    A = defs[ia]
+    root = os.path.join(scratch_root(), 'c03rc.%d.%d' % (os.getpid(), ia))
+    shutil.rmtree(root, ignore_errors=True)
+    dumpdir = os.path.join(root, 'dumps')
+    os.makedirs(dumpdir)
+    out = {'viol': [], 'cases': 0, 'by_kind': {}, 'wrapped': 0, 'rsp_edges': 0, 'hist': {'histories': 0, 'pickled': 0, 'outcome_differs': 0, 'observed_steps': 0}}
+    targets = []
+    for ib in ibs:
+        for pos in HIST_POSITIONS:
+            name = '%s_%d_%d' % (pos[:2], ia, ib)
+            targets.append((name, pos, ib, os.path.join(dumpdir, name + '.dump')))
+    env = mp.base_env(home=os.path.join(root, 'home'))
+    env.update(HIST_OUTER)
+    history = [A, None, A][:steps]
+    for step, which in enumerate(history):
+        L = ["project('history')", "dump = find_program(%s)" % lit(DUMP)]
+        for name, pos, ib, dump in targets:
+            hist_decl(L, name, pos, which or defs[ib], dump)
+        mp.write_tree(root, {'meson.build': '\n'.join(L) + '\n'})
+        r = mp.run_meson(['setup', 'b'] if step == 0 else ['setup', '--reconfigure', 'b'], root, env=env, timeout=600)
+        if r.rc != 0:
+            out['viol'].append(('C03:reconfigure:setup-fails', 'step %d of the history starting with %s: meson setup fails: %s' % (step, hist_describe(A), r.out[-300:]),
+                                {'history': [ia, list(ibs)], 'hist_space': [ne, na, steps]}))
+            break
+        if step == 0 and steps < 3:
+            continue            # (quick tier: the first configuration is only the pre-state; single configurations are family envop's)
+        obs, pickled = hist_observe(os.path.join(root, 'b'), env, [(t[0], t[3]) for t in targets])
+        out['hist']['pickled'] += pickled
+        out['hist']['observed_steps'] += 1
+        for name, pos, ib, dump in targets:
+            cur = which or defs[ib]
+            prev = A if which is None else (defs[ib] if step == 2 else None)
+            exp = ([b(exp_command_arg(x)) for x in HIST_ARGDEFS[cur[1]]], hist_env_expected(cur[0]))
+            out['cases'] += 1
+            kind = 'reconfigured-' + pos
+            out['by_kind'][kind] = out['by_kind'].get(kind, 0) + 1
+            if step == 1:
+                out['hist']['histories'] += 1
+                if exp != ([b(exp_command_arg(x)) for x in HIST_ARGDEFS[A[1]]], hist_env_expected(A[0])):
+                    out['hist']['outcome_differs'] += 1
+            got = obs.get(name)
+            if got == exp:
+                continue
+            rep_ = {'history': [ia, [ib]], 'hist_space': [ne, na, steps], 'position': pos, 'step': step,
+                    'given': [hist_describe(d) for d in ([A, defs[ib], A][:step + 1])], 'observed': repr(got), 'expected': repr(exp)}
+            if got is None:
+                key = 'C03:reconfigure:no-observation'
+            elif prev is not None and got[1] != exp[1] and got[1] == hist_env_expected(prev[0]):
+                key = 'C03:reconfigure:env-of-earlier-definition'
+            elif got[1] != exp[1]:
+                key = 'C03:reconfigure:env-value'
+            else:
+                key = 'C03:reconfigure:argv'
+            out['viol'].append((key, '%s configured as {%s}, edited to {%s} and reconfigured%s: the process receives argv %r env %r, the current definition says argv %r env %r'
+                                % (pos, hist_describe(A), hist_describe(defs[ib]), ' (then back again)' if step == 2 else '', got and got[0], got and got[1], exp[0], exp[1]), rep_))
+    shutil.rmtree(root, ignore_errors=True)
+    return out
+
+
+def run_siblings(job):
+    """job = (idx, 'SB', argdef index, ne)"""
+    from verif import mesonproc as mp
+    _, _, ai, ne = job
+    root = os.path.join(scratch_root(), 'c03sb.%d.%d' % (os.getpid(), ai))
+    shutil.rmtree(root, ignore_errors=True)
+    dumpdir = os.path.join(root, 'dumps')
+    os.makedirs(dumpdir)
+    out = {'viol': [], 'cases': 0, 'by_kind': {}, 'wrapped': 0, 'rsp_edges': 0, 'sib': {'pairs': 0, 'pickled': 0, 'outcome_differs': 0}}
+    L = ["project('siblings')", "dump = find_program(%s)" % lit(DUMP)]
+    targets = []
+    for ea, eb in itertools.combinations(range(ne), 2):
+        for pos in HIST_POSITIONS:
+            dump = os.path.join(dumpdir, '%s_%d_%d.dump' % (pos[:2], ea, eb))      # the two siblings run the same command line
+            for mine, other in ((ea, eb), (eb, ea)):
+                name = '%s_%d_%d_is%d' % (pos[:2], ea, eb, mine)
+                hist_decl(L, name, pos, (mine, ai), dump)
+                targets.append((name, pos, mine, other, dump))
+    mp.write_tree(root, {'meson.build': '\n'.join(L) + '\n'})
+    env = mp.base_env(home=os.path.join(root, 'home'))
+    env.update(HIST_OUTER)
+    r = mp.run_meson(['setup', 'b'], root, env=env, timeout=600)
+    if r.rc != 0:
+        out['viol'].append(('C03:siblings:setup-fails', 'meson setup rejects the sibling-target project: ' + r.out[-300:], {'siblings': [ai, ne]}))
+        return out
+    obs, pickled = hist_observe(os.path.join(root, 'b'), env, [(t[0], t[4]) for t in targets])
+    out['sib']['pickled'] = pickled
+    for name, pos, mine, other, dump in targets:
+        exp = ([b(exp_command_arg(x)) for x in HIST_ARGDEFS[ai]], hist_env_expected(mine))
+        out['cases'] += 1
+        kind = 'sibling-' + pos
+        out['by_kind'][kind] = out['by_kind'].get(kind, 0) + 1
+        out['sib']['pairs'] += 1
+        if hist_env_expected(other) != exp[1]:
+            out['sib']['outcome_differs'] += 1
+        got = obs.get(name)
+        if got == exp:
+            continue
+        if got is None:
+            key = 'C03:siblings:no-observation'
+        elif got[1] != exp[1] and got[1] == hist_env_expected(other):
+            key = 'C03:siblings:env-of-other-target'
+        elif got[1] != exp[1]:
+            key = 'C03:siblings:env-value'
+        else:
+            key = 'C03:siblings:argv'
+        out['viol'].append((key, '%s with env {%s} next to a %s running the same command %r with env {%s}: the process receives argv %r env %r, its definition says env %r'
+                            % (pos, HIST_ENVDEFS[mine][0], pos, HIST_ARGDEFS[ai], HIST_ENVDEFS[other][0], got and got[0], got and got[1], exp[1]),
+                            {'siblings': [ai, ne], 'position': pos, 'given': [HIST_ENVDEFS[mine][0], HIST_ENVDEFS[other][0]], 'observed': repr(got), 'expected': repr(exp)}))
+    shutil.rmtree(root, ignore_errors=True)
+    return out
+
+
 def run_any(job):
+    if job[1] == 'RC':
+        return run_history(job)
+    if job[1] == 'SB':
+        return run_siblings(job)
     if job[1] == 'TO':
         return run_testobj_project(job)
     if job[1] == 'EO':
@@ -838,6 +1058,19 @@ def main():
             for k, w, _ in res['viol']:
                 print(k, w)
             sys.exit(1 if res['viol'] else 0)
+        if d.get('history') or d.get('siblings'):
+            from verif import mesonproc as mp
+            mp.preimport()
+            if d.get('history'):
+                res = run_history((0, 'RC', d['history'][0], d['history'][1]) + tuple(d['hist_space']))
+            else:
+                res = run_siblings((0, 'SB') + tuple(d['siblings']))
+            res['viol'] = [v for v in res['viol'] if v[2].get('position') == d.get('position') and (d.get('siblings') is None or v[2].get('given') == d.get('given'))]
+            for k, w, r_ in res['viol']:
+                print(k, w)
+                print('  expected', r_.get('expected'))
+                print('  observed', r_.get('observed'))
+            sys.exit(1 if res['viol'] else 0)
         res = run_project((0, [s for s in lst if isinstance(s, str)] or ['a'], d.get('rsp_forced', False)))
         for k, w, _ in res['viol']:
             print(k, w)
@@ -850,10 +1083,20 @@ def main():
     per = max(200, (len(strings) + NCPU - 1) // NCPU)
     parts = [strings[i:i + per] for i in range(0, len(strings), per)]
     jobs = []
-    for pi, part in enumerate(parts):
-        jobs.append((len(jobs), part, False))
-    for pi, part in enumerate(parts):
-        jobs.append((len(jobs), part, True))
+    if ck.want('strings'):
+        for pi, part in enumerate(parts):
+            jobs.append((len(jobs), part, False))
+        for pi, part in enumerate(parts):
+            jobs.append((len(jobs), part, True))
+    # histories (configure, edit, reconfigure) and sibling targets: see HIST_ENVDEFS
+    h_ne, h_na, h_steps = ck.q(8, len(HIST_ENVDEFS)), ck.q(2, len(HIST_ARGDEFS)), ck.q(2, 3)
+    if ck.want('reconf'):
+        nd = len(hist_defs(h_ne, h_na))
+        for ia in range(nd):
+            jobs.append((len(jobs), 'RC', ia, [ib for ib in range(nd) if ib != ia], h_ne, h_na, h_steps))
+    if ck.want('siblings'):
+        for ai in range(h_na):
+            jobs.append((len(jobs), 'SB', ai, h_ne))
     if ck.want('lang'):
         jobs.insert(0, (len(jobs), 'LANG', False))
     if ck.want('envop'):
@@ -865,6 +1108,8 @@ def main():
             for ph in PLACEHOLDERS:
                 jobs.append((len(jobs), 'PH', where, ph))
     tot = {'cases': 0, 'projects': 0, 'wrapped_edges': 0, 'rsp_edges': 0}
+    hist = {}
+    sib = {}
     kinds = {}
     ph_outcomes = {}
     for res in pmap(run_any, jobs, chunksize=1):
@@ -876,13 +1121,27 @@ def main():
             kinds[k] = kinds.get(k, 0) + v
         for key, what, rep in res['viol']:
             ck.violation(key, what, rep)
+        for src, dst in ((res.get('hist'), hist), (res.get('sib'), sib)):
+            for k, v in (src or {}).items():
+                dst[k] = dst.get(k, 0) + v
         if 'ph' in res:
             ph_outcomes.setdefault(res['ph'][2], []).append('%s:%s' % res['ph'][:2])
     if ph_outcomes:
         ck.part('placeholders', spellings=len(PLACEHOLDERS), **{k: len(v) for k, v in ph_outcomes.items()})
         if not ck.n_viol:
             ck.require(len(ph_outcomes.get('substituted', [])) >= 12 and ph_outcomes.get('error'), 'placeholder family one-sided: %r' % {k: len(v) for k, v in ph_outcomes.items()})
+    if ck.want('reconf'):
+        ck.part('reconfigure_histories', definitions=len(hist_defs(h_ne, h_na)), env_definitions=h_ne, arg_definitions=h_na, steps=h_steps, **hist)
+        ck.require(hist.get('histories', 0) == len(hist_defs(h_ne, h_na)) * (len(hist_defs(h_ne, h_na)) - 1) * len(HIST_POSITIONS) or ck.n_viol,
+                   'not every ordered pair of definitions was taken through configure/edit/reconfigure: %r' % hist)
+        ck.require((hist.get('pickled', 0) > hist.get('histories', 0) // 3 and hist.get('outcome_differs', 0) > hist.get('histories', 0) // 2) or ck.n_viol,
+                   'reconfigure family vacuous (few statements through the pickled wrapper / edits that change nothing): %r' % hist)
+    if ck.want('siblings'):
+        ck.part('sibling_targets', env_definitions=h_ne, arg_definitions=h_na, **sib)
+        ck.require((sib.get('pickled', 0) > 0 and sib.get('outcome_differs', 0) > sib.get('pairs', 0) // 2) or ck.n_viol, 'sibling family vacuous: %r' % sib)
     ck.part('positions', **kinds)
+    if not ck.want('strings'):
+        ck.finish(evaluations=tot['cases'], distinct_nontrivial=len(kinds), rule='partial run (--only)', exhaustive=False)
     ck.require(tot['rsp_edges'] > 0, 'no response-file statement seen')
     ck.part('totals', strings=len(strings), max_atoms=n, **tot)
     ck.sample({'strings': strings[30:36], 'positions': sorted(kinds)})
@@ -892,6 +1151,8 @@ def main():
     ck.finish(evaluations=tot['cases'], distinct_nontrivial=len(kinds),
               rule='all %d strings of <= %d atoms over a 26-atom alphabet (+ %d specials) x positions {custom_target plain/capture/feed/env/console/depfile, run_target, generator, '
                    'test args+env x {exitcode,tap}, c_args -D family, c_args neutral, link_args, project/global/project-link args} x {direct, response files forced}; '
+                   'plus all ordered pairs of command definitions (env method/separator/unset/values x argument lists) as configure-edit-reconfigure histories of one '
+                   'build directory, and all pairs of env definitions on two targets with the same command line; '
                    'evaluations = argument occurrences compared; distinct_nontrivial = positions/modes observed' % (len(strings), n, len(SPECIALS)),
               exhaustive=True)
 
